@@ -53,6 +53,7 @@
 #include "world_builder/features/plume.h"
 #include "world_builder/features/subducting_plate.h"
 #include "world_builder/features/fault.h"
+#include "surface_includes.inc"
 #include "world_builder/wrapper_c.h"
 #include "world_builder/wrapper_cpp.h"
 #undef private
@@ -101,6 +102,29 @@ static std::string sanitize(const std::string &w)
   std::string s = w.substr(0, 400);
   for (char &c : s) if (c == '\n' || c == '\r') c = ' ';
   return s;
+}
+
+static void dump_surface(std::string &out, const std::string &key, const Objects::Surface &s)
+{
+  out += " S " + key + " " + (s.constant_value ? "1" : "0") + " " + hx(s.minimum) + " " + hx(s.maximum);
+  out += " " + std::to_string(s.constant_value ? 0 : s.triangles.size());
+  if (!s.constant_value)
+    {
+      for (const auto &t : s.triangles)
+        for (int a = 0; a < 3; ++a)
+          for (int b = 0; b < 3; ++b)
+            out += " " + hx(t[a][b]);
+      const auto &nodes = s.tree.get_nodes();
+      out += " " + std::to_string(nodes.size());
+      for (const auto &nd : nodes) out += " " + std::to_string(nd.index) + " " + hx(nd.x) + " " + hx(nd.y);
+    }
+  else
+    out += " 0";
+}
+
+static void dump_feature_surfaces(std::string &out, const std::string &key, const Features::Interface *fp)
+{
+#include "surface_dump.inc"
 }
 
 static std::map<int, std::unique_ptr<World>> worlds;
@@ -182,6 +206,44 @@ static std::string run(const std::string &line)
       double depth = rd(in); std::string name; in >> name;
       auto d = worlds.at(slot)->distance_to_plane(p, depth, unders(name));
       return vec({d.get_distance_from_surface(), d.get_distance_along_surface()});
+    }
+  if (cmd == "surfaces")
+    {
+      int slot; in >> slot; World &w = *worlds.at(slot);
+      std::string out = "ok";
+      for (size_t i = 0; i < w.parameters.features.size(); ++i)
+        dump_feature_surfaces(out, "features/" + std::to_string(i), w.parameters.features[i].get());
+      return out;
+    }
+  if (cmd == "surf")
+    {
+      // surf <c|s> ntri (9 doubles)* nnodes (idx x y)* px py   : Surface::local_value on given data
+      std::string cs; in >> cs;
+      Objects::Surface s;
+      s.constant_value = false;
+      size_t nt; in >> nt;
+      s.triangles.resize(nt);
+      for (auto &t : s.triangles) for (int a = 0; a < 3; ++a) for (int b = 0; b < 3; ++b) t[a][b] = rd(in);
+      size_t nn; in >> nn;
+      std::vector<KDTree::Node> nodes;
+      for (size_t i = 0; i < nn; ++i) { size_t idx; in >> idx; double x = rd(in), y = rd(in); nodes.emplace_back(idx, x, y); }
+      s.tree = KDTree::KDTree(nodes);
+      s.in_triangle_precomputed.resize(nt);
+      for (size_t iii = 0; iii < nt; iii++)
+        {
+          auto &triangles = s.triangles; auto &pre = s.in_triangle_precomputed;
+          pre[iii][0] = triangles[iii][0][1]*triangles[iii][2][0] - triangles[iii][0][0]*triangles[iii][2][1];
+          pre[iii][1] = triangles[iii][2][1] - triangles[iii][0][1];
+          pre[iii][2] = triangles[iii][0][0] - triangles[iii][2][0];
+          pre[iii][3] = triangles[iii][0][0]*triangles[iii][1][1] - triangles[iii][0][1]*triangles[iii][1][0];
+          pre[iii][4] = triangles[iii][0][1] - triangles[iii][1][1];
+          pre[iii][5] = triangles[iii][1][0] - triangles[iii][0][0];
+          pre[iii][6] = -(-triangles[iii][1][1]*triangles[iii][2][0] + triangles[iii][0][1]*(-triangles[iii][1][0] + triangles[iii][2][0]) + triangles[iii][0][0]*(triangles[iii][1][1] - triangles[iii][2][1]) + triangles[iii][1][0]*triangles[iii][2][1]);
+          pre[iii][7] = 1./pre[iii][6];
+        }
+      double px = rd(in), py = rd(in);
+      auto r = s.local_value(Point<2>(px, py, cs == "s" ? spherical : cartesian));
+      return vec({r.interpolated_value});
     }
   if (cmd == "globals")
     {
